@@ -23,7 +23,7 @@ def build_cases(ctx):
     for gpgsigs in (False, True):
         mk = (lambda i, p: E.gpg_sig(i, p)) if gpgsigs else (lambda i, p: E.raw_sig(i, p))
         Ks = [[], [k0], [k0, k1], [k0, k1, k2], [k0, k0], [k0, 5], [k0, k1.upper()], (k0, k1), None, k0, [k1, k0]]
-        ts = [0, 1, 2, 3, 2 ** 64, True, False, 1.0, 2.0, -1, "1", None, [1]]
+        ts = [0, 1, 2, 3, 2 ** 64, True, False, 1.0, 2.0, -1, "1", None, [1], float("nan"), float("inf"), -float("inf"), 0.5, 1e300]
         gs = [False, True, 0, 1, None, "yes", "", 2, [0]]
         pls = [P, OP, "str", 7, 1.5, None, True, (1, 2), b"bytes", {"k": b"b"}, {1: 2}, {"s": {1, 2}}, Obj(1), {"a": {"b": {"c": [1, [2, [3]]]}}}]
         for K, t in itertools.product(Ks, ts):
@@ -50,6 +50,10 @@ def build_cases(ctx):
         vs = E.value_states(i, P, OP, 1 - i)
         for vn in ("raw", "gpg", "raw_other_payload", "raw_misfiled", "gpg_flip_hdr"):
             kinds.append((k, vs[vn], "%d:%s" % (i, vn)))
+    vs1 = E.value_states(1, P, OP, 0)
+    for vn in ("sig_nl_for_last", "gpg_sig_nl_for_last", "sig_mixed", "gpg_hdr_nl_for_last"):
+        kinds.append((k1, vs1[vn], "1:" + vn))     # junk under an AUTHORIZED key: skipped, never fatal
+    kinds.append((E.mixcase(k1), vs1["raw"], "1mixed:raw"))
     kinds.append((k0.upper(), vs0["raw"], "0up:raw"))
     kinds.append((k2, E.value_states(2, P, OP, 0)["raw"], "2:raw"))
     kinds.append(("junk\ud800é", 5, "junk"))
@@ -62,6 +66,39 @@ def build_cases(ctx):
         for gpg in (False, True):
             for t in (1, 2, 3):
                 cases.append({"w": wire.case("verify_signable", env, [k0, k1], t, gpg), "meta": {"s": "D", "kinds": [c[2] for c in combo]}})
+    # E: alternative spellings of ONE key, in the authorized list and/or in the signature map: never a second signer
+    for ks, kf in E.KEY_SPELLINGS.items():
+        if ks == "canon":
+            continue
+        alt = kf(k0)
+        for gpg in (False, True):
+            mk = (lambda p: E.gpg_sig(0, p)) if gpg else (lambda p: E.raw_sig(0, p))
+            try:
+                sigs = {k0: mk(P), alt: mk(P)}
+            except TypeError:
+                continue
+            for K in ([k0, alt], [alt, k0], [k0], [alt], [k0, k1, alt]):
+                for t in (1, 2):
+                    cases.append({"w": wire.case("verify_signable", {"signatures": sigs, "signed": P}, K, t, gpg), "meta": {"s": "E", "ks": ks}})
+            # three notations of the same key at once, threshold 2 and 3
+            sigs3 = {k0: mk(P), alt: mk(P), " " + k0: mk(P), k0 + " ": mk(P), k0.upper(): mk(P)}
+            for t in (2, 3):
+                cases.append({"w": wire.case("verify_signable", {"signatures": sigs3, "signed": P}, [k0, k1], t, gpg), "meta": {"s": "E3", "ks": ks}})
+    # F: payloads that a lossy or normalising serializer would conflate: a signature over one never counts for the other
+    for a, b in E.CONFUSABLE_PAYLOADS:
+        for x, y in ((a, b), (b, a)):
+            for gpg in (False, True):
+                try:
+                    sg = E.gpg_sig(0, x) if gpg else E.raw_sig(0, x)
+                except (TypeError, ValueError, UnicodeError):
+                    continue
+                for pl in (y, {"k": y}, [y]):
+                    try:
+                        sg2 = E.gpg_sig(0, {"k": x} if isinstance(pl, dict) else [x] if isinstance(pl, list) else x) if gpg else \
+                            E.raw_sig(0, {"k": x} if isinstance(pl, dict) else [x] if isinstance(pl, list) else x)
+                    except (TypeError, ValueError, UnicodeError):
+                        continue
+                    cases.append({"w": wire.case("verify_signable", {"signatures": {k0: sg2}, "signed": pl}, [k0], 1, gpg), "meta": {"s": "F"}})
     # C: random larger maps
     nrand = 1500 if ctx.quick else 20000
     allkinds = []
@@ -138,5 +175,8 @@ def run(ctx):
     cases = build_cases(ctx)
     core.run_stream(ctx, core.Stream("verify_signable: entry kinds x key lists x thresholds x modes x payloads (A,B,D exhaustive; C random)",
                                      cases, rel, oracle_sound, nontrivial))
+    sub = [c for c in cases if c["meta"]["s"] in ("A", "D", "E", "E3", "F")]
+    core.failing_stdout_streams(ctx, "verify_signable on the entry-kind cases", sub,
+                                lambda c: oracle_sound(c, "O") is None)
     ctx.assumptions = ["'cryptographically valid' is the verdict of the ed25519 verification primitive (pyca/OpenSSL in the implementation, the oracle table in the model)",
                        "dict keys pairwise distinct (Python dict invariant) for 'no key counts twice'"]
